@@ -19,6 +19,9 @@
 (*         last byte changed  iEmpty an empty file  (all four: readable     *)
 (*         files that are fine as plaintext and not authentic as .wenc)     *)
 (*  output oO creatable path  oBad path in a directory that does not exist *)
+(*         oFull a path that opens but cannot take a byte (/dev/full: the  *)
+(*         disk-full case) - encrypt and decrypt must fail, verify writes  *)
+(*         nothing and is unaffected                                       *)
 (*  key    kK right key  kW well-formed wrong key  kShort(23) kBadChar     *)
 (*         kNoPad(24, no '=') kOnePad(24, one '=') kLong(28)               *)
 (*         kHigh (24 characters, one with the high bit set)  kMidPad (24   *)
@@ -26,6 +29,8 @@
 (*  modes  c0 c2 c4 (valid, incl. both ends of the range)  c5 c100 c256    *)
 (*         c260 cNeg (-1)  cabc cEmpty (not numbers)   h0 h1 h2  h3 h256   *)
 (*         hNeg   cHuge hHuge (a number that does not fit an int)          *)
+(*         cWrapNeg (-(2^64)+1) c2p32p1 (2^32+1) c2p64p1 (2^64+1): numbers *)
+(*         that wrap to a valid mode in an unsigned / narrower parse       *)
 (*  empty  iEmptyArg oEmptyArg kEmpty: the option with "" as its value     *)
 (*  other  x unknown option   stray positional argument                    *)
 (***************************************************************************)
@@ -36,7 +41,7 @@ ModeOf(t) == CASE t \in {"e", "le", "en", "leAbbr"} -> "e" [] t \in {"d", "ld", 
                [] t = "V" -> "V" [] t = "h" -> "h"
 Tokens == ModeTok \cup {"n", "iF", "iE", "iMissing", "iLong", "iLen122", "iLen123", "iProc", "iNoArg", "iBadC", "iBadH", "iTam", "iEmpty", "oO", "oBad", "kK", "kW", "kShort", "kBadChar",
                         "kNoPad", "kOnePad", "kLong", "kHigh", "kMidPad", "kEmpty", "c0", "c2", "c4", "c5", "c100", "c256", "c260", "cNeg", "cHuge", "cabc", "cEmpty",
-                        "h0", "h1", "h2", "h3", "h256", "hNeg", "hHuge", "iEmptyArg", "oEmptyArg", "kAbbr", "cAbbr", "x", "stray"}
+                        "h0", "h1", "h2", "h3", "h256", "hNeg", "hHuge", "iEmptyArg", "oEmptyArg", "oFull", "kAbbr", "cAbbr", "cWrapNeg", "c2p32p1", "c2p64p1", "x", "stray"}
 S0 == [mode |-> "u", ct |-> FALSE, ht |-> FALSE, in |-> "none", out |-> "none", key |-> "none", quiet |-> FALSE, err |-> FALSE, may |-> FALSE]
 
 \* one token; the first offending token ends the parse (err)
@@ -52,9 +57,10 @@ Step(s, t) ==
   ELSE IF t = "iProc" THEN [s EXCEPT !.in = "R"]
   ELSE IF t \in {"iBadC", "iBadH", "iTam", "iEmpty"} THEN [s EXCEPT !.in = "X"]
   ELSE IF t \in {"iMissing", "iNoArg", "iEmptyArg", "oBad", "oEmptyArg", "kShort", "kBadChar", "kNoPad", "kOnePad", "kLong", "kHigh", "kMidPad", "kEmpty",
-                  "c5", "c100", "c256", "c260", "cNeg", "cHuge", "h3", "h256", "hNeg", "hHuge", "x"}
+                  "c5", "c100", "c256", "c260", "cNeg", "cHuge", "cWrapNeg", "c2p32p1", "c2p64p1", "h3", "h256", "hNeg", "hHuge", "x"}
        THEN [s EXCEPT !.err = TRUE]
   ELSE IF t = "oO" THEN [s EXCEPT !.out = "O"]
+  ELSE IF t = "oFull" THEN [s EXCEPT !.out = "U"]
   ELSE IF t \in {"kK", "kAbbr"} THEN [s EXCEPT !.key = "K"]
   ELSE IF t = "kW" THEN [s EXCEPT !.key = "W"]
   ELSE IF t \in {"c0", "c2", "c4", "cAbbr"} THEN (IF s.ct THEN [s EXCEPT !.err = TRUE] ELSE [s EXCEPT !.ct = TRUE])
@@ -81,11 +87,12 @@ Class(ts0) ==
   ELSE IF s.mode \in {"V", "h"} THEN (IF s.may THEN "MAY" ELSE "OK")
   ELSE IF s.mode = "e" THEN
          (IF s.in = "none" THEN "FAIL"
+          ELSE IF s.out = "U" THEN "FAIL"                        \* nothing can be written: the encryption did not succeed
           ELSE IF s.out = "none" /\ s.in = "L" THEN "MAY"        \* default output name may not fit a long path
           ELSE IF s.out = "none" /\ s.in = "R" THEN "FAIL"       \* default output cannot be created next to the input
           ELSE IF s.may THEN "MAY" ELSE "OK")
   ELSE IF s.mode = "d" THEN
-         (IF s.in = "none" \/ s.key = "none" \/ s.out = "none" THEN "FAIL"
+         (IF s.in = "none" \/ s.key = "none" \/ s.out = "none" \/ s.out = "U" THEN "FAIL"
           ELSE IF s.in = "E" /\ s.key = "K" THEN (IF s.may THEN "MAY" ELSE "OK") ELSE "FAIL")
   ELSE (IF s.in = "none" \/ s.key = "none" THEN "FAIL"
         ELSE IF s.in = "E" /\ s.key = "K" THEN (IF s.may THEN "MAY" ELSE "OK") ELSE "FAIL")
